@@ -36,6 +36,17 @@ def setStr (b : Binds) (st : Store) (locked : Bool) (mode : InplaceMode) (k : St
     | none => .error .key
     | some dest => if dest.offs.length = vals.length then .ok (b, writeLeaf st dest vals) else .error .shape
 
+/-! ### `update_` -/
+
+/-- mirrors tensordict/base.py:TensorDictBase.update_ without `keys_to_update`: the fast path pairs the
+destination's leaves with the source's by key (`other._items_list(sorting_keys=keys, default="intersection")`) and
+copies with `_foreach_copy_`; keys of the source unknown to the destination are *ignored* as long as one key is
+shared, and raise KeyError (slow path `inplace_update`) only when no key is shared.  Nothing is ever bound. -/
+def updateInplace (b : Binds) (st : Store) (src : List (String × List Val)) : Except SetErr Store :=
+  let common := src.filter (fun p => (b.lookup p.1).isSome)
+  if common.isEmpty then (if src.isEmpty then .ok st else .error .key)
+  else .ok (inplaceWrites b st common)
+
 /-! ### which indices are views -/
 
 /-- the kinds of items of an index (tensordict/_td.py:_index_tensordict applies `tensor[index]` to every leaf, so
